@@ -140,7 +140,13 @@ func normalizeIP(ip net.IP) net.IP {
 
 func matchIPConstraint(ip net.IP, constraint *net.IPNet) (bool, error) {
 	ip = normalizeIP(ip)
-	constraintIP := normalizeIP(constraint.IP)
+	// Only a subtree for IPv4 addresses is compared in its 4-byte form. An
+	// IPv4-mapped IPv6 subtree has a 16-byte mask; crypto/x509 does not match
+	// an IPv4 address with it.
+	constraintIP := constraint.IP
+	if len(constraint.Mask) == net.IPv4len {
+		constraintIP = normalizeIP(constraintIP)
+	}
 	if len(ip) != len(constraintIP) {
 		return false, nil
 	}
